@@ -270,6 +270,42 @@ macro_rules! conv_shape {
             if let Some(r) = r {
                 check_int::<W>(&r, &er);
             }
+            if !vc::symbolic() {
+                // native witness search: the counterexample was found with the quotient/remainder ABSTRACT, so its operands need not
+                // show the defect with real arithmetic (e.g. they may divide exactly). Same API, same signs and lengths, over the corner
+                // digit table, against the real unsigned division. This only confirms; it never decides.
+                let mut ka = 0;
+                while ka < vc::pow12($la) {
+                    let ca: [u64; $la] = vc::corner_operand::<$la>(ka);
+                    let mut kb = 0;
+                    while kb < vc::pow12($lb) {
+                        let cb: [u64; $lb] = vc::corner_operand::<$lb>(kb);
+                        let ok_shape = ca.last().map_or(true, |&d| d != 0) && cb.last().map_or(false, |&d| d != 0) && !($lb == 1 && cb[0] <= 0xffff_ffff);
+                        if ok_shape {
+                            let (ua, ub) = (vc::mk_from(&ca), vc::mk_from(&cb));
+                            let (uq, ur) = Integer::div_rem(&ua, &ub);
+                            let up = &uq * &ub;
+                            unsafe {
+                                GH_Q = widen_slice(vc::digits(&uq));
+                                GH_R = widen_slice(vc::digits(&ur));
+                                GH_P = widen_slice(vc::digits(&up));
+                            }
+                            let x = mkint($na, &ca);
+                            let x_tc = tc::<W>(&x);
+                            let (q2, r2) = run_api($api, x, mkint($nb, &cb));
+                            let (eq2, er2) = expected(conv_of($api), $na, $nb, &x_tc, &widen_slice(&cb));
+                            if let Some(q2) = q2 {
+                                check_int::<W>(&q2, &eq2);
+                            }
+                            if let Some(r2) = r2 {
+                                check_int::<W>(&r2, &er2);
+                            }
+                        }
+                        kb += 1;
+                    }
+                    ka += 1;
+                }
+            }
             kani::cover!(true, "reach:end_of_harness");
         }
     };
@@ -357,28 +393,28 @@ conv_shape!(c03_t_conv_div_rem_m2_m2_q1_r0, API_DIV_REM, true, 2, true, 2, divre
 conv_shape!(c03_t_conv_div_rem_m1_m2_q0_r1, API_DIV_REM, true, 1, true, 2, divrem_contract_0_1);
 conv_shape!(c03_q_conv_div_rem_z0_p1_q0_r0, API_DIV_REM, false, 0, false, 1, divrem_contract_0_0);
 conv_shape!(c03_q_conv_div_rem_z0_m1_q0_r0, API_DIV_REM, false, 0, true, 1, divrem_contract_0_0);
-conv_shape!(c03_t_conv_div_p1_p1_q1_r1, API_DIV, false, 1, false, 1, divrem_contract_1_1);
+conv_shape!(c03_q_conv_div_p1_p1_q1_r1, API_DIV, false, 1, false, 1, divrem_contract_1_1);
 conv_shape!(c03_t_conv_div_p1_p1_q1_r0, API_DIV, false, 1, false, 1, divrem_contract_1_0);
 conv_shape!(c03_t_conv_div_p1_p1_q0_r1, API_DIV, false, 1, false, 1, divrem_contract_0_1);
 conv_shape!(c03_t_conv_div_p2_p1_q2_r1, API_DIV, false, 2, false, 1, divrem_contract_2_1);
 conv_shape!(c03_t_conv_div_p2_p1_q1_r1, API_DIV, false, 2, false, 1, divrem_contract_1_1);
 conv_shape!(c03_t_conv_div_p2_p1_q1_r0, API_DIV, false, 2, false, 1, divrem_contract_1_0);
 conv_shape!(c03_t_conv_div_p2_p1_q2_r0, API_DIV, false, 2, false, 1, divrem_contract_2_0);
-conv_shape!(c03_t_conv_div_p1_m1_q1_r1, API_DIV, false, 1, true, 1, divrem_contract_1_1);
+conv_shape!(c03_q_conv_div_p1_m1_q1_r1, API_DIV, false, 1, true, 1, divrem_contract_1_1);
 conv_shape!(c03_t_conv_div_p1_m1_q1_r0, API_DIV, false, 1, true, 1, divrem_contract_1_0);
 conv_shape!(c03_t_conv_div_p1_m1_q0_r1, API_DIV, false, 1, true, 1, divrem_contract_0_1);
 conv_shape!(c03_t_conv_div_p2_m1_q2_r1, API_DIV, false, 2, true, 1, divrem_contract_2_1);
 conv_shape!(c03_t_conv_div_p2_m1_q1_r1, API_DIV, false, 2, true, 1, divrem_contract_1_1);
 conv_shape!(c03_t_conv_div_p2_m1_q1_r0, API_DIV, false, 2, true, 1, divrem_contract_1_0);
 conv_shape!(c03_t_conv_div_p2_m1_q2_r0, API_DIV, false, 2, true, 1, divrem_contract_2_0);
-conv_shape!(c03_t_conv_div_m1_p1_q1_r1, API_DIV, true, 1, false, 1, divrem_contract_1_1);
+conv_shape!(c03_q_conv_div_m1_p1_q1_r1, API_DIV, true, 1, false, 1, divrem_contract_1_1);
 conv_shape!(c03_t_conv_div_m1_p1_q1_r0, API_DIV, true, 1, false, 1, divrem_contract_1_0);
 conv_shape!(c03_t_conv_div_m1_p1_q0_r1, API_DIV, true, 1, false, 1, divrem_contract_0_1);
 conv_shape!(c03_t_conv_div_m2_p1_q2_r1, API_DIV, true, 2, false, 1, divrem_contract_2_1);
 conv_shape!(c03_t_conv_div_m2_p1_q1_r1, API_DIV, true, 2, false, 1, divrem_contract_1_1);
 conv_shape!(c03_t_conv_div_m2_p1_q1_r0, API_DIV, true, 2, false, 1, divrem_contract_1_0);
 conv_shape!(c03_t_conv_div_m2_p1_q2_r0, API_DIV, true, 2, false, 1, divrem_contract_2_0);
-conv_shape!(c03_t_conv_div_m1_m1_q1_r1, API_DIV, true, 1, true, 1, divrem_contract_1_1);
+conv_shape!(c03_q_conv_div_m1_m1_q1_r1, API_DIV, true, 1, true, 1, divrem_contract_1_1);
 conv_shape!(c03_t_conv_div_m1_m1_q1_r0, API_DIV, true, 1, true, 1, divrem_contract_1_0);
 conv_shape!(c03_t_conv_div_m1_m1_q0_r1, API_DIV, true, 1, true, 1, divrem_contract_0_1);
 conv_shape!(c03_t_conv_div_m2_m1_q2_r1, API_DIV, true, 2, true, 1, divrem_contract_2_1);
@@ -787,28 +823,28 @@ conv_shape!(c03_t_conv_div_rem_euclid_m2_m2_q1_r0, API_DIV_REM_EUCLID, true, 2, 
 conv_shape!(c03_t_conv_div_rem_euclid_m1_m2_q0_r1, API_DIV_REM_EUCLID, true, 1, true, 2, divrem_contract_0_1);
 conv_shape!(c03_q_conv_div_rem_euclid_z0_p1_q0_r0, API_DIV_REM_EUCLID, false, 0, false, 1, divrem_contract_0_0);
 conv_shape!(c03_q_conv_div_rem_euclid_z0_m1_q0_r0, API_DIV_REM_EUCLID, false, 0, true, 1, divrem_contract_0_0);
-conv_shape!(c03_t_conv_checked_div_p1_p1_q1_r1, API_CHECKED_DIV, false, 1, false, 1, divrem_contract_1_1);
+conv_shape!(c03_q_conv_checked_div_p1_p1_q1_r1, API_CHECKED_DIV, false, 1, false, 1, divrem_contract_1_1);
 conv_shape!(c03_t_conv_checked_div_p1_p1_q1_r0, API_CHECKED_DIV, false, 1, false, 1, divrem_contract_1_0);
 conv_shape!(c03_t_conv_checked_div_p1_p1_q0_r1, API_CHECKED_DIV, false, 1, false, 1, divrem_contract_0_1);
 conv_shape!(c03_t_conv_checked_div_p2_p1_q2_r1, API_CHECKED_DIV, false, 2, false, 1, divrem_contract_2_1);
 conv_shape!(c03_t_conv_checked_div_p2_p1_q1_r1, API_CHECKED_DIV, false, 2, false, 1, divrem_contract_1_1);
 conv_shape!(c03_t_conv_checked_div_p2_p1_q1_r0, API_CHECKED_DIV, false, 2, false, 1, divrem_contract_1_0);
 conv_shape!(c03_t_conv_checked_div_p2_p1_q2_r0, API_CHECKED_DIV, false, 2, false, 1, divrem_contract_2_0);
-conv_shape!(c03_t_conv_checked_div_p1_m1_q1_r1, API_CHECKED_DIV, false, 1, true, 1, divrem_contract_1_1);
+conv_shape!(c03_q_conv_checked_div_p1_m1_q1_r1, API_CHECKED_DIV, false, 1, true, 1, divrem_contract_1_1);
 conv_shape!(c03_t_conv_checked_div_p1_m1_q1_r0, API_CHECKED_DIV, false, 1, true, 1, divrem_contract_1_0);
 conv_shape!(c03_t_conv_checked_div_p1_m1_q0_r1, API_CHECKED_DIV, false, 1, true, 1, divrem_contract_0_1);
 conv_shape!(c03_t_conv_checked_div_p2_m1_q2_r1, API_CHECKED_DIV, false, 2, true, 1, divrem_contract_2_1);
 conv_shape!(c03_t_conv_checked_div_p2_m1_q1_r1, API_CHECKED_DIV, false, 2, true, 1, divrem_contract_1_1);
 conv_shape!(c03_t_conv_checked_div_p2_m1_q1_r0, API_CHECKED_DIV, false, 2, true, 1, divrem_contract_1_0);
 conv_shape!(c03_t_conv_checked_div_p2_m1_q2_r0, API_CHECKED_DIV, false, 2, true, 1, divrem_contract_2_0);
-conv_shape!(c03_t_conv_checked_div_m1_p1_q1_r1, API_CHECKED_DIV, true, 1, false, 1, divrem_contract_1_1);
+conv_shape!(c03_q_conv_checked_div_m1_p1_q1_r1, API_CHECKED_DIV, true, 1, false, 1, divrem_contract_1_1);
 conv_shape!(c03_t_conv_checked_div_m1_p1_q1_r0, API_CHECKED_DIV, true, 1, false, 1, divrem_contract_1_0);
 conv_shape!(c03_t_conv_checked_div_m1_p1_q0_r1, API_CHECKED_DIV, true, 1, false, 1, divrem_contract_0_1);
 conv_shape!(c03_t_conv_checked_div_m2_p1_q2_r1, API_CHECKED_DIV, true, 2, false, 1, divrem_contract_2_1);
 conv_shape!(c03_t_conv_checked_div_m2_p1_q1_r1, API_CHECKED_DIV, true, 2, false, 1, divrem_contract_1_1);
 conv_shape!(c03_t_conv_checked_div_m2_p1_q1_r0, API_CHECKED_DIV, true, 2, false, 1, divrem_contract_1_0);
 conv_shape!(c03_t_conv_checked_div_m2_p1_q2_r0, API_CHECKED_DIV, true, 2, false, 1, divrem_contract_2_0);
-conv_shape!(c03_t_conv_checked_div_m1_m1_q1_r1, API_CHECKED_DIV, true, 1, true, 1, divrem_contract_1_1);
+conv_shape!(c03_q_conv_checked_div_m1_m1_q1_r1, API_CHECKED_DIV, true, 1, true, 1, divrem_contract_1_1);
 conv_shape!(c03_t_conv_checked_div_m1_m1_q1_r0, API_CHECKED_DIV, true, 1, true, 1, divrem_contract_1_0);
 conv_shape!(c03_t_conv_checked_div_m1_m1_q0_r1, API_CHECKED_DIV, true, 1, true, 1, divrem_contract_0_1);
 conv_shape!(c03_t_conv_checked_div_m2_m1_q2_r1, API_CHECKED_DIV, true, 2, true, 1, divrem_contract_2_1);
@@ -817,28 +853,28 @@ conv_shape!(c03_t_conv_checked_div_m2_m1_q1_r0, API_CHECKED_DIV, true, 2, true, 
 conv_shape!(c03_t_conv_checked_div_m2_m1_q2_r0, API_CHECKED_DIV, true, 2, true, 1, divrem_contract_2_0);
 conv_shape!(c03_t_conv_checked_div_z0_p1_q0_r0, API_CHECKED_DIV, false, 0, false, 1, divrem_contract_0_0);
 conv_shape!(c03_t_conv_checked_div_z0_m1_q0_r0, API_CHECKED_DIV, false, 0, true, 1, divrem_contract_0_0);
-conv_shape!(c03_t_conv_checked_div_euclid_p1_p1_q1_r1, API_CHECKED_DIV_EUCLID, false, 1, false, 1, divrem_contract_1_1);
+conv_shape!(c03_q_conv_checked_div_euclid_p1_p1_q1_r1, API_CHECKED_DIV_EUCLID, false, 1, false, 1, divrem_contract_1_1);
 conv_shape!(c03_t_conv_checked_div_euclid_p1_p1_q1_r0, API_CHECKED_DIV_EUCLID, false, 1, false, 1, divrem_contract_1_0);
 conv_shape!(c03_t_conv_checked_div_euclid_p1_p1_q0_r1, API_CHECKED_DIV_EUCLID, false, 1, false, 1, divrem_contract_0_1);
 conv_shape!(c03_t_conv_checked_div_euclid_p2_p1_q2_r1, API_CHECKED_DIV_EUCLID, false, 2, false, 1, divrem_contract_2_1);
 conv_shape!(c03_t_conv_checked_div_euclid_p2_p1_q1_r1, API_CHECKED_DIV_EUCLID, false, 2, false, 1, divrem_contract_1_1);
 conv_shape!(c03_t_conv_checked_div_euclid_p2_p1_q1_r0, API_CHECKED_DIV_EUCLID, false, 2, false, 1, divrem_contract_1_0);
 conv_shape!(c03_t_conv_checked_div_euclid_p2_p1_q2_r0, API_CHECKED_DIV_EUCLID, false, 2, false, 1, divrem_contract_2_0);
-conv_shape!(c03_t_conv_checked_div_euclid_p1_m1_q1_r1, API_CHECKED_DIV_EUCLID, false, 1, true, 1, divrem_contract_1_1);
+conv_shape!(c03_q_conv_checked_div_euclid_p1_m1_q1_r1, API_CHECKED_DIV_EUCLID, false, 1, true, 1, divrem_contract_1_1);
 conv_shape!(c03_t_conv_checked_div_euclid_p1_m1_q1_r0, API_CHECKED_DIV_EUCLID, false, 1, true, 1, divrem_contract_1_0);
 conv_shape!(c03_t_conv_checked_div_euclid_p1_m1_q0_r1, API_CHECKED_DIV_EUCLID, false, 1, true, 1, divrem_contract_0_1);
 conv_shape!(c03_t_conv_checked_div_euclid_p2_m1_q2_r1, API_CHECKED_DIV_EUCLID, false, 2, true, 1, divrem_contract_2_1);
 conv_shape!(c03_t_conv_checked_div_euclid_p2_m1_q1_r1, API_CHECKED_DIV_EUCLID, false, 2, true, 1, divrem_contract_1_1);
 conv_shape!(c03_t_conv_checked_div_euclid_p2_m1_q1_r0, API_CHECKED_DIV_EUCLID, false, 2, true, 1, divrem_contract_1_0);
 conv_shape!(c03_t_conv_checked_div_euclid_p2_m1_q2_r0, API_CHECKED_DIV_EUCLID, false, 2, true, 1, divrem_contract_2_0);
-conv_shape!(c03_t_conv_checked_div_euclid_m1_p1_q1_r1, API_CHECKED_DIV_EUCLID, true, 1, false, 1, divrem_contract_1_1);
+conv_shape!(c03_q_conv_checked_div_euclid_m1_p1_q1_r1, API_CHECKED_DIV_EUCLID, true, 1, false, 1, divrem_contract_1_1);
 conv_shape!(c03_t_conv_checked_div_euclid_m1_p1_q1_r0, API_CHECKED_DIV_EUCLID, true, 1, false, 1, divrem_contract_1_0);
 conv_shape!(c03_t_conv_checked_div_euclid_m1_p1_q0_r1, API_CHECKED_DIV_EUCLID, true, 1, false, 1, divrem_contract_0_1);
 conv_shape!(c03_t_conv_checked_div_euclid_m2_p1_q2_r1, API_CHECKED_DIV_EUCLID, true, 2, false, 1, divrem_contract_2_1);
 conv_shape!(c03_t_conv_checked_div_euclid_m2_p1_q1_r1, API_CHECKED_DIV_EUCLID, true, 2, false, 1, divrem_contract_1_1);
 conv_shape!(c03_t_conv_checked_div_euclid_m2_p1_q1_r0, API_CHECKED_DIV_EUCLID, true, 2, false, 1, divrem_contract_1_0);
 conv_shape!(c03_t_conv_checked_div_euclid_m2_p1_q2_r0, API_CHECKED_DIV_EUCLID, true, 2, false, 1, divrem_contract_2_0);
-conv_shape!(c03_t_conv_checked_div_euclid_m1_m1_q1_r1, API_CHECKED_DIV_EUCLID, true, 1, true, 1, divrem_contract_1_1);
+conv_shape!(c03_q_conv_checked_div_euclid_m1_m1_q1_r1, API_CHECKED_DIV_EUCLID, true, 1, true, 1, divrem_contract_1_1);
 conv_shape!(c03_t_conv_checked_div_euclid_m1_m1_q1_r0, API_CHECKED_DIV_EUCLID, true, 1, true, 1, divrem_contract_1_0);
 conv_shape!(c03_t_conv_checked_div_euclid_m1_m1_q0_r1, API_CHECKED_DIV_EUCLID, true, 1, true, 1, divrem_contract_0_1);
 conv_shape!(c03_t_conv_checked_div_euclid_m2_m1_q2_r1, API_CHECKED_DIV_EUCLID, true, 2, true, 1, divrem_contract_2_1);
@@ -847,28 +883,28 @@ conv_shape!(c03_t_conv_checked_div_euclid_m2_m1_q1_r0, API_CHECKED_DIV_EUCLID, t
 conv_shape!(c03_t_conv_checked_div_euclid_m2_m1_q2_r0, API_CHECKED_DIV_EUCLID, true, 2, true, 1, divrem_contract_2_0);
 conv_shape!(c03_t_conv_checked_div_euclid_z0_p1_q0_r0, API_CHECKED_DIV_EUCLID, false, 0, false, 1, divrem_contract_0_0);
 conv_shape!(c03_t_conv_checked_div_euclid_z0_m1_q0_r0, API_CHECKED_DIV_EUCLID, false, 0, true, 1, divrem_contract_0_0);
-conv_shape!(c03_t_conv_checked_rem_euclid_p1_p1_q1_r1, API_CHECKED_REM_EUCLID, false, 1, false, 1, divrem_contract_1_1);
+conv_shape!(c03_q_conv_checked_rem_euclid_p1_p1_q1_r1, API_CHECKED_REM_EUCLID, false, 1, false, 1, divrem_contract_1_1);
 conv_shape!(c03_t_conv_checked_rem_euclid_p1_p1_q1_r0, API_CHECKED_REM_EUCLID, false, 1, false, 1, divrem_contract_1_0);
 conv_shape!(c03_t_conv_checked_rem_euclid_p1_p1_q0_r1, API_CHECKED_REM_EUCLID, false, 1, false, 1, divrem_contract_0_1);
 conv_shape!(c03_t_conv_checked_rem_euclid_p2_p1_q2_r1, API_CHECKED_REM_EUCLID, false, 2, false, 1, divrem_contract_2_1);
 conv_shape!(c03_t_conv_checked_rem_euclid_p2_p1_q1_r1, API_CHECKED_REM_EUCLID, false, 2, false, 1, divrem_contract_1_1);
 conv_shape!(c03_t_conv_checked_rem_euclid_p2_p1_q1_r0, API_CHECKED_REM_EUCLID, false, 2, false, 1, divrem_contract_1_0);
 conv_shape!(c03_t_conv_checked_rem_euclid_p2_p1_q2_r0, API_CHECKED_REM_EUCLID, false, 2, false, 1, divrem_contract_2_0);
-conv_shape!(c03_t_conv_checked_rem_euclid_p1_m1_q1_r1, API_CHECKED_REM_EUCLID, false, 1, true, 1, divrem_contract_1_1);
+conv_shape!(c03_q_conv_checked_rem_euclid_p1_m1_q1_r1, API_CHECKED_REM_EUCLID, false, 1, true, 1, divrem_contract_1_1);
 conv_shape!(c03_t_conv_checked_rem_euclid_p1_m1_q1_r0, API_CHECKED_REM_EUCLID, false, 1, true, 1, divrem_contract_1_0);
 conv_shape!(c03_t_conv_checked_rem_euclid_p1_m1_q0_r1, API_CHECKED_REM_EUCLID, false, 1, true, 1, divrem_contract_0_1);
 conv_shape!(c03_t_conv_checked_rem_euclid_p2_m1_q2_r1, API_CHECKED_REM_EUCLID, false, 2, true, 1, divrem_contract_2_1);
 conv_shape!(c03_t_conv_checked_rem_euclid_p2_m1_q1_r1, API_CHECKED_REM_EUCLID, false, 2, true, 1, divrem_contract_1_1);
 conv_shape!(c03_t_conv_checked_rem_euclid_p2_m1_q1_r0, API_CHECKED_REM_EUCLID, false, 2, true, 1, divrem_contract_1_0);
 conv_shape!(c03_t_conv_checked_rem_euclid_p2_m1_q2_r0, API_CHECKED_REM_EUCLID, false, 2, true, 1, divrem_contract_2_0);
-conv_shape!(c03_t_conv_checked_rem_euclid_m1_p1_q1_r1, API_CHECKED_REM_EUCLID, true, 1, false, 1, divrem_contract_1_1);
+conv_shape!(c03_q_conv_checked_rem_euclid_m1_p1_q1_r1, API_CHECKED_REM_EUCLID, true, 1, false, 1, divrem_contract_1_1);
 conv_shape!(c03_t_conv_checked_rem_euclid_m1_p1_q1_r0, API_CHECKED_REM_EUCLID, true, 1, false, 1, divrem_contract_1_0);
 conv_shape!(c03_t_conv_checked_rem_euclid_m1_p1_q0_r1, API_CHECKED_REM_EUCLID, true, 1, false, 1, divrem_contract_0_1);
 conv_shape!(c03_t_conv_checked_rem_euclid_m2_p1_q2_r1, API_CHECKED_REM_EUCLID, true, 2, false, 1, divrem_contract_2_1);
 conv_shape!(c03_t_conv_checked_rem_euclid_m2_p1_q1_r1, API_CHECKED_REM_EUCLID, true, 2, false, 1, divrem_contract_1_1);
 conv_shape!(c03_t_conv_checked_rem_euclid_m2_p1_q1_r0, API_CHECKED_REM_EUCLID, true, 2, false, 1, divrem_contract_1_0);
 conv_shape!(c03_t_conv_checked_rem_euclid_m2_p1_q2_r0, API_CHECKED_REM_EUCLID, true, 2, false, 1, divrem_contract_2_0);
-conv_shape!(c03_t_conv_checked_rem_euclid_m1_m1_q1_r1, API_CHECKED_REM_EUCLID, true, 1, true, 1, divrem_contract_1_1);
+conv_shape!(c03_q_conv_checked_rem_euclid_m1_m1_q1_r1, API_CHECKED_REM_EUCLID, true, 1, true, 1, divrem_contract_1_1);
 conv_shape!(c03_t_conv_checked_rem_euclid_m1_m1_q1_r0, API_CHECKED_REM_EUCLID, true, 1, true, 1, divrem_contract_1_0);
 conv_shape!(c03_t_conv_checked_rem_euclid_m1_m1_q0_r1, API_CHECKED_REM_EUCLID, true, 1, true, 1, divrem_contract_0_1);
 conv_shape!(c03_t_conv_checked_rem_euclid_m2_m1_q2_r1, API_CHECKED_REM_EUCLID, true, 2, true, 1, divrem_contract_2_1);
@@ -927,28 +963,28 @@ conv_shape!(c03_t_conv_checked_div_rem_euclid_m2_m2_q1_r0, API_CHECKED_DIV_REM_E
 conv_shape!(c03_t_conv_checked_div_rem_euclid_m1_m2_q0_r1, API_CHECKED_DIV_REM_EUCLID, true, 1, true, 2, divrem_contract_0_1);
 conv_shape!(c03_q_conv_checked_div_rem_euclid_z0_p1_q0_r0, API_CHECKED_DIV_REM_EUCLID, false, 0, false, 1, divrem_contract_0_0);
 conv_shape!(c03_q_conv_checked_div_rem_euclid_z0_m1_q0_r0, API_CHECKED_DIV_REM_EUCLID, false, 0, true, 1, divrem_contract_0_0);
-conv_shape!(c03_t_conv_div_vv_p1_p1_q1_r1, API_DIV_VV, false, 1, false, 1, divrem_contract_1_1);
+conv_shape!(c03_q_conv_div_vv_p1_p1_q1_r1, API_DIV_VV, false, 1, false, 1, divrem_contract_1_1);
 conv_shape!(c03_t_conv_div_vv_p1_p1_q1_r0, API_DIV_VV, false, 1, false, 1, divrem_contract_1_0);
 conv_shape!(c03_t_conv_div_vv_p1_p1_q0_r1, API_DIV_VV, false, 1, false, 1, divrem_contract_0_1);
 conv_shape!(c03_t_conv_div_vv_p2_p1_q2_r1, API_DIV_VV, false, 2, false, 1, divrem_contract_2_1);
 conv_shape!(c03_t_conv_div_vv_p2_p1_q1_r1, API_DIV_VV, false, 2, false, 1, divrem_contract_1_1);
 conv_shape!(c03_t_conv_div_vv_p2_p1_q1_r0, API_DIV_VV, false, 2, false, 1, divrem_contract_1_0);
 conv_shape!(c03_t_conv_div_vv_p2_p1_q2_r0, API_DIV_VV, false, 2, false, 1, divrem_contract_2_0);
-conv_shape!(c03_t_conv_div_vv_p1_m1_q1_r1, API_DIV_VV, false, 1, true, 1, divrem_contract_1_1);
+conv_shape!(c03_q_conv_div_vv_p1_m1_q1_r1, API_DIV_VV, false, 1, true, 1, divrem_contract_1_1);
 conv_shape!(c03_t_conv_div_vv_p1_m1_q1_r0, API_DIV_VV, false, 1, true, 1, divrem_contract_1_0);
 conv_shape!(c03_t_conv_div_vv_p1_m1_q0_r1, API_DIV_VV, false, 1, true, 1, divrem_contract_0_1);
 conv_shape!(c03_t_conv_div_vv_p2_m1_q2_r1, API_DIV_VV, false, 2, true, 1, divrem_contract_2_1);
 conv_shape!(c03_t_conv_div_vv_p2_m1_q1_r1, API_DIV_VV, false, 2, true, 1, divrem_contract_1_1);
 conv_shape!(c03_t_conv_div_vv_p2_m1_q1_r0, API_DIV_VV, false, 2, true, 1, divrem_contract_1_0);
 conv_shape!(c03_t_conv_div_vv_p2_m1_q2_r0, API_DIV_VV, false, 2, true, 1, divrem_contract_2_0);
-conv_shape!(c03_t_conv_div_vv_m1_p1_q1_r1, API_DIV_VV, true, 1, false, 1, divrem_contract_1_1);
+conv_shape!(c03_q_conv_div_vv_m1_p1_q1_r1, API_DIV_VV, true, 1, false, 1, divrem_contract_1_1);
 conv_shape!(c03_t_conv_div_vv_m1_p1_q1_r0, API_DIV_VV, true, 1, false, 1, divrem_contract_1_0);
 conv_shape!(c03_t_conv_div_vv_m1_p1_q0_r1, API_DIV_VV, true, 1, false, 1, divrem_contract_0_1);
 conv_shape!(c03_t_conv_div_vv_m2_p1_q2_r1, API_DIV_VV, true, 2, false, 1, divrem_contract_2_1);
 conv_shape!(c03_t_conv_div_vv_m2_p1_q1_r1, API_DIV_VV, true, 2, false, 1, divrem_contract_1_1);
 conv_shape!(c03_t_conv_div_vv_m2_p1_q1_r0, API_DIV_VV, true, 2, false, 1, divrem_contract_1_0);
 conv_shape!(c03_t_conv_div_vv_m2_p1_q2_r0, API_DIV_VV, true, 2, false, 1, divrem_contract_2_0);
-conv_shape!(c03_t_conv_div_vv_m1_m1_q1_r1, API_DIV_VV, true, 1, true, 1, divrem_contract_1_1);
+conv_shape!(c03_q_conv_div_vv_m1_m1_q1_r1, API_DIV_VV, true, 1, true, 1, divrem_contract_1_1);
 conv_shape!(c03_t_conv_div_vv_m1_m1_q1_r0, API_DIV_VV, true, 1, true, 1, divrem_contract_1_0);
 conv_shape!(c03_t_conv_div_vv_m1_m1_q0_r1, API_DIV_VV, true, 1, true, 1, divrem_contract_0_1);
 conv_shape!(c03_t_conv_div_vv_m2_m1_q2_r1, API_DIV_VV, true, 2, true, 1, divrem_contract_2_1);
@@ -957,28 +993,28 @@ conv_shape!(c03_t_conv_div_vv_m2_m1_q1_r0, API_DIV_VV, true, 2, true, 1, divrem_
 conv_shape!(c03_t_conv_div_vv_m2_m1_q2_r0, API_DIV_VV, true, 2, true, 1, divrem_contract_2_0);
 conv_shape!(c03_t_conv_div_vv_z0_p1_q0_r0, API_DIV_VV, false, 0, false, 1, divrem_contract_0_0);
 conv_shape!(c03_t_conv_div_vv_z0_m1_q0_r0, API_DIV_VV, false, 0, true, 1, divrem_contract_0_0);
-conv_shape!(c03_t_conv_rem_vv_p1_p1_q1_r1, API_REM_VV, false, 1, false, 1, divrem_contract_1_1);
+conv_shape!(c03_q_conv_rem_vv_p1_p1_q1_r1, API_REM_VV, false, 1, false, 1, divrem_contract_1_1);
 conv_shape!(c03_t_conv_rem_vv_p1_p1_q1_r0, API_REM_VV, false, 1, false, 1, divrem_contract_1_0);
 conv_shape!(c03_t_conv_rem_vv_p1_p1_q0_r1, API_REM_VV, false, 1, false, 1, divrem_contract_0_1);
 conv_shape!(c03_t_conv_rem_vv_p2_p1_q2_r1, API_REM_VV, false, 2, false, 1, divrem_contract_2_1);
 conv_shape!(c03_t_conv_rem_vv_p2_p1_q1_r1, API_REM_VV, false, 2, false, 1, divrem_contract_1_1);
 conv_shape!(c03_t_conv_rem_vv_p2_p1_q1_r0, API_REM_VV, false, 2, false, 1, divrem_contract_1_0);
 conv_shape!(c03_t_conv_rem_vv_p2_p1_q2_r0, API_REM_VV, false, 2, false, 1, divrem_contract_2_0);
-conv_shape!(c03_t_conv_rem_vv_p1_m1_q1_r1, API_REM_VV, false, 1, true, 1, divrem_contract_1_1);
+conv_shape!(c03_q_conv_rem_vv_p1_m1_q1_r1, API_REM_VV, false, 1, true, 1, divrem_contract_1_1);
 conv_shape!(c03_t_conv_rem_vv_p1_m1_q1_r0, API_REM_VV, false, 1, true, 1, divrem_contract_1_0);
 conv_shape!(c03_t_conv_rem_vv_p1_m1_q0_r1, API_REM_VV, false, 1, true, 1, divrem_contract_0_1);
 conv_shape!(c03_t_conv_rem_vv_p2_m1_q2_r1, API_REM_VV, false, 2, true, 1, divrem_contract_2_1);
 conv_shape!(c03_t_conv_rem_vv_p2_m1_q1_r1, API_REM_VV, false, 2, true, 1, divrem_contract_1_1);
 conv_shape!(c03_t_conv_rem_vv_p2_m1_q1_r0, API_REM_VV, false, 2, true, 1, divrem_contract_1_0);
 conv_shape!(c03_t_conv_rem_vv_p2_m1_q2_r0, API_REM_VV, false, 2, true, 1, divrem_contract_2_0);
-conv_shape!(c03_t_conv_rem_vv_m1_p1_q1_r1, API_REM_VV, true, 1, false, 1, divrem_contract_1_1);
+conv_shape!(c03_q_conv_rem_vv_m1_p1_q1_r1, API_REM_VV, true, 1, false, 1, divrem_contract_1_1);
 conv_shape!(c03_t_conv_rem_vv_m1_p1_q1_r0, API_REM_VV, true, 1, false, 1, divrem_contract_1_0);
 conv_shape!(c03_t_conv_rem_vv_m1_p1_q0_r1, API_REM_VV, true, 1, false, 1, divrem_contract_0_1);
 conv_shape!(c03_t_conv_rem_vv_m2_p1_q2_r1, API_REM_VV, true, 2, false, 1, divrem_contract_2_1);
 conv_shape!(c03_t_conv_rem_vv_m2_p1_q1_r1, API_REM_VV, true, 2, false, 1, divrem_contract_1_1);
 conv_shape!(c03_t_conv_rem_vv_m2_p1_q1_r0, API_REM_VV, true, 2, false, 1, divrem_contract_1_0);
 conv_shape!(c03_t_conv_rem_vv_m2_p1_q2_r0, API_REM_VV, true, 2, false, 1, divrem_contract_2_0);
-conv_shape!(c03_t_conv_rem_vv_m1_m1_q1_r1, API_REM_VV, true, 1, true, 1, divrem_contract_1_1);
+conv_shape!(c03_q_conv_rem_vv_m1_m1_q1_r1, API_REM_VV, true, 1, true, 1, divrem_contract_1_1);
 conv_shape!(c03_t_conv_rem_vv_m1_m1_q1_r0, API_REM_VV, true, 1, true, 1, divrem_contract_1_0);
 conv_shape!(c03_t_conv_rem_vv_m1_m1_q0_r1, API_REM_VV, true, 1, true, 1, divrem_contract_0_1);
 conv_shape!(c03_t_conv_rem_vv_m2_m1_q2_r1, API_REM_VV, true, 2, true, 1, divrem_contract_2_1);
@@ -987,28 +1023,28 @@ conv_shape!(c03_t_conv_rem_vv_m2_m1_q1_r0, API_REM_VV, true, 2, true, 1, divrem_
 conv_shape!(c03_t_conv_rem_vv_m2_m1_q2_r0, API_REM_VV, true, 2, true, 1, divrem_contract_2_0);
 conv_shape!(c03_t_conv_rem_vv_z0_p1_q0_r0, API_REM_VV, false, 0, false, 1, divrem_contract_0_0);
 conv_shape!(c03_t_conv_rem_vv_z0_m1_q0_r0, API_REM_VV, false, 0, true, 1, divrem_contract_0_0);
-conv_shape!(c03_t_conv_div_assign_p1_p1_q1_r1, API_DIV_ASSIGN, false, 1, false, 1, divrem_contract_1_1);
+conv_shape!(c03_q_conv_div_assign_p1_p1_q1_r1, API_DIV_ASSIGN, false, 1, false, 1, divrem_contract_1_1);
 conv_shape!(c03_t_conv_div_assign_p1_p1_q1_r0, API_DIV_ASSIGN, false, 1, false, 1, divrem_contract_1_0);
 conv_shape!(c03_t_conv_div_assign_p1_p1_q0_r1, API_DIV_ASSIGN, false, 1, false, 1, divrem_contract_0_1);
 conv_shape!(c03_t_conv_div_assign_p2_p1_q2_r1, API_DIV_ASSIGN, false, 2, false, 1, divrem_contract_2_1);
 conv_shape!(c03_t_conv_div_assign_p2_p1_q1_r1, API_DIV_ASSIGN, false, 2, false, 1, divrem_contract_1_1);
 conv_shape!(c03_t_conv_div_assign_p2_p1_q1_r0, API_DIV_ASSIGN, false, 2, false, 1, divrem_contract_1_0);
 conv_shape!(c03_t_conv_div_assign_p2_p1_q2_r0, API_DIV_ASSIGN, false, 2, false, 1, divrem_contract_2_0);
-conv_shape!(c03_t_conv_div_assign_p1_m1_q1_r1, API_DIV_ASSIGN, false, 1, true, 1, divrem_contract_1_1);
+conv_shape!(c03_q_conv_div_assign_p1_m1_q1_r1, API_DIV_ASSIGN, false, 1, true, 1, divrem_contract_1_1);
 conv_shape!(c03_t_conv_div_assign_p1_m1_q1_r0, API_DIV_ASSIGN, false, 1, true, 1, divrem_contract_1_0);
 conv_shape!(c03_t_conv_div_assign_p1_m1_q0_r1, API_DIV_ASSIGN, false, 1, true, 1, divrem_contract_0_1);
 conv_shape!(c03_t_conv_div_assign_p2_m1_q2_r1, API_DIV_ASSIGN, false, 2, true, 1, divrem_contract_2_1);
 conv_shape!(c03_t_conv_div_assign_p2_m1_q1_r1, API_DIV_ASSIGN, false, 2, true, 1, divrem_contract_1_1);
 conv_shape!(c03_t_conv_div_assign_p2_m1_q1_r0, API_DIV_ASSIGN, false, 2, true, 1, divrem_contract_1_0);
 conv_shape!(c03_t_conv_div_assign_p2_m1_q2_r0, API_DIV_ASSIGN, false, 2, true, 1, divrem_contract_2_0);
-conv_shape!(c03_t_conv_div_assign_m1_p1_q1_r1, API_DIV_ASSIGN, true, 1, false, 1, divrem_contract_1_1);
+conv_shape!(c03_q_conv_div_assign_m1_p1_q1_r1, API_DIV_ASSIGN, true, 1, false, 1, divrem_contract_1_1);
 conv_shape!(c03_t_conv_div_assign_m1_p1_q1_r0, API_DIV_ASSIGN, true, 1, false, 1, divrem_contract_1_0);
 conv_shape!(c03_t_conv_div_assign_m1_p1_q0_r1, API_DIV_ASSIGN, true, 1, false, 1, divrem_contract_0_1);
 conv_shape!(c03_t_conv_div_assign_m2_p1_q2_r1, API_DIV_ASSIGN, true, 2, false, 1, divrem_contract_2_1);
 conv_shape!(c03_t_conv_div_assign_m2_p1_q1_r1, API_DIV_ASSIGN, true, 2, false, 1, divrem_contract_1_1);
 conv_shape!(c03_t_conv_div_assign_m2_p1_q1_r0, API_DIV_ASSIGN, true, 2, false, 1, divrem_contract_1_0);
 conv_shape!(c03_t_conv_div_assign_m2_p1_q2_r0, API_DIV_ASSIGN, true, 2, false, 1, divrem_contract_2_0);
-conv_shape!(c03_t_conv_div_assign_m1_m1_q1_r1, API_DIV_ASSIGN, true, 1, true, 1, divrem_contract_1_1);
+conv_shape!(c03_q_conv_div_assign_m1_m1_q1_r1, API_DIV_ASSIGN, true, 1, true, 1, divrem_contract_1_1);
 conv_shape!(c03_t_conv_div_assign_m1_m1_q1_r0, API_DIV_ASSIGN, true, 1, true, 1, divrem_contract_1_0);
 conv_shape!(c03_t_conv_div_assign_m1_m1_q0_r1, API_DIV_ASSIGN, true, 1, true, 1, divrem_contract_0_1);
 conv_shape!(c03_t_conv_div_assign_m2_m1_q2_r1, API_DIV_ASSIGN, true, 2, true, 1, divrem_contract_2_1);
@@ -1017,28 +1053,28 @@ conv_shape!(c03_t_conv_div_assign_m2_m1_q1_r0, API_DIV_ASSIGN, true, 2, true, 1,
 conv_shape!(c03_t_conv_div_assign_m2_m1_q2_r0, API_DIV_ASSIGN, true, 2, true, 1, divrem_contract_2_0);
 conv_shape!(c03_t_conv_div_assign_z0_p1_q0_r0, API_DIV_ASSIGN, false, 0, false, 1, divrem_contract_0_0);
 conv_shape!(c03_t_conv_div_assign_z0_m1_q0_r0, API_DIV_ASSIGN, false, 0, true, 1, divrem_contract_0_0);
-conv_shape!(c03_t_conv_rem_assign_p1_p1_q1_r1, API_REM_ASSIGN, false, 1, false, 1, divrem_contract_1_1);
+conv_shape!(c03_q_conv_rem_assign_p1_p1_q1_r1, API_REM_ASSIGN, false, 1, false, 1, divrem_contract_1_1);
 conv_shape!(c03_t_conv_rem_assign_p1_p1_q1_r0, API_REM_ASSIGN, false, 1, false, 1, divrem_contract_1_0);
 conv_shape!(c03_t_conv_rem_assign_p1_p1_q0_r1, API_REM_ASSIGN, false, 1, false, 1, divrem_contract_0_1);
 conv_shape!(c03_t_conv_rem_assign_p2_p1_q2_r1, API_REM_ASSIGN, false, 2, false, 1, divrem_contract_2_1);
 conv_shape!(c03_t_conv_rem_assign_p2_p1_q1_r1, API_REM_ASSIGN, false, 2, false, 1, divrem_contract_1_1);
 conv_shape!(c03_t_conv_rem_assign_p2_p1_q1_r0, API_REM_ASSIGN, false, 2, false, 1, divrem_contract_1_0);
 conv_shape!(c03_t_conv_rem_assign_p2_p1_q2_r0, API_REM_ASSIGN, false, 2, false, 1, divrem_contract_2_0);
-conv_shape!(c03_t_conv_rem_assign_p1_m1_q1_r1, API_REM_ASSIGN, false, 1, true, 1, divrem_contract_1_1);
+conv_shape!(c03_q_conv_rem_assign_p1_m1_q1_r1, API_REM_ASSIGN, false, 1, true, 1, divrem_contract_1_1);
 conv_shape!(c03_t_conv_rem_assign_p1_m1_q1_r0, API_REM_ASSIGN, false, 1, true, 1, divrem_contract_1_0);
 conv_shape!(c03_t_conv_rem_assign_p1_m1_q0_r1, API_REM_ASSIGN, false, 1, true, 1, divrem_contract_0_1);
 conv_shape!(c03_t_conv_rem_assign_p2_m1_q2_r1, API_REM_ASSIGN, false, 2, true, 1, divrem_contract_2_1);
 conv_shape!(c03_t_conv_rem_assign_p2_m1_q1_r1, API_REM_ASSIGN, false, 2, true, 1, divrem_contract_1_1);
 conv_shape!(c03_t_conv_rem_assign_p2_m1_q1_r0, API_REM_ASSIGN, false, 2, true, 1, divrem_contract_1_0);
 conv_shape!(c03_t_conv_rem_assign_p2_m1_q2_r0, API_REM_ASSIGN, false, 2, true, 1, divrem_contract_2_0);
-conv_shape!(c03_t_conv_rem_assign_m1_p1_q1_r1, API_REM_ASSIGN, true, 1, false, 1, divrem_contract_1_1);
+conv_shape!(c03_q_conv_rem_assign_m1_p1_q1_r1, API_REM_ASSIGN, true, 1, false, 1, divrem_contract_1_1);
 conv_shape!(c03_t_conv_rem_assign_m1_p1_q1_r0, API_REM_ASSIGN, true, 1, false, 1, divrem_contract_1_0);
 conv_shape!(c03_t_conv_rem_assign_m1_p1_q0_r1, API_REM_ASSIGN, true, 1, false, 1, divrem_contract_0_1);
 conv_shape!(c03_t_conv_rem_assign_m2_p1_q2_r1, API_REM_ASSIGN, true, 2, false, 1, divrem_contract_2_1);
 conv_shape!(c03_t_conv_rem_assign_m2_p1_q1_r1, API_REM_ASSIGN, true, 2, false, 1, divrem_contract_1_1);
 conv_shape!(c03_t_conv_rem_assign_m2_p1_q1_r0, API_REM_ASSIGN, true, 2, false, 1, divrem_contract_1_0);
 conv_shape!(c03_t_conv_rem_assign_m2_p1_q2_r0, API_REM_ASSIGN, true, 2, false, 1, divrem_contract_2_0);
-conv_shape!(c03_t_conv_rem_assign_m1_m1_q1_r1, API_REM_ASSIGN, true, 1, true, 1, divrem_contract_1_1);
+conv_shape!(c03_q_conv_rem_assign_m1_m1_q1_r1, API_REM_ASSIGN, true, 1, true, 1, divrem_contract_1_1);
 conv_shape!(c03_t_conv_rem_assign_m1_m1_q1_r0, API_REM_ASSIGN, true, 1, true, 1, divrem_contract_1_0);
 conv_shape!(c03_t_conv_rem_assign_m1_m1_q0_r1, API_REM_ASSIGN, true, 1, true, 1, divrem_contract_0_1);
 conv_shape!(c03_t_conv_rem_assign_m2_m1_q2_r1, API_REM_ASSIGN, true, 2, true, 1, divrem_contract_2_1);
